@@ -85,7 +85,10 @@ impl<'a> Matcher<'a> {
             let mut p = cursor;
             loop {
                 if par.is_char_boundary(p) && par[p..].starts_with(body) {
-                    v.push((p, p + body.len(), hy));
+                    // a hyphen may only have been inserted at a split point of the splitter
+                    if !hy || is_custom_split_point(par, p + body.len()) {
+                        v.push((p, p + body.len(), hy));
+                    }
                     break;
                 }
                 if p < par.len() && par.as_bytes()[p] == b' ' {
@@ -156,6 +159,9 @@ fn global_match(text: &str, lines: &[Cow<str>], cfg: &Cfg) -> bool {
                             continue;
                         }
                         let body = if hy { &content[..content.len() - 1] } else { content };
+                        if hy && !is_custom_split_point(text, p + body.len()) {
+                            continue;
+                        }
                         if text[p..].starts_with(body) && go(text, lines, cfg, li + 1, p + body.len(), steps) {
                             return true;
                         }
@@ -370,6 +376,19 @@ pub fn check_wrap(text: &str, cfg: &Cfg, mask: u32, cx: &mut Cx) {
             if cx.want_sample() {
                 cx.sample(&|| json!({"text": text, "config": cfg.d(), "lines": lines_json(&lines)}));
             }
+        }
+    }
+
+    // ---- C05, mapping-free form: if *every* paragraph fits with the indent it will carry, the
+    // whole output is determined by the statement (one line per paragraph: indent + paragraph
+    // minus trailing spaces).  Needs no assignment of lines to paragraphs, so it also judges
+    // outputs whose indents are missing.
+    if mask & M_C05 != 0 && wellformed && builtin {
+        let all_fit = pars.iter().enumerate().all(|(pi, _)| viss[pi].as_ref().unwrap().width() + ref_width(if pi == 0 { cfg.ii } else { cfg.si }) <= cfg.width);
+        if all_fit {
+            let expect: Vec<String> = pars.iter().enumerate().map(|(pi, par)| format!("{}{}", if pi == 0 { cfg.ii } else { cfg.si }, par.trim_end_matches(' '))).collect();
+            let got: Vec<String> = lines.iter().map(|l| l.to_string()).collect();
+            cx.check("C05-all-paragraphs-fit-unchanged", got == expect, &d, &|| json!({"expected": expect, "lines": got}));
         }
     }
 
